@@ -157,7 +157,8 @@ def classify(args):
 
 # ------------------------------------------------------------------ session: server + model
 class Sess:
-    def __init__(self, rows, tag="c08", quirks=(0, 0)):
+    def __init__(self, rows, tag="c08", quirks=(0, 0), base_db=0):
+        self.base_db = base_db
         self.srv = Server(tag)
         self.cl = {i: self.srv.client() for i in (A, B, C)}
         self.ctl = self.srv.client()
@@ -226,6 +227,8 @@ class Sess:
         else:
             content = ("?", t)
         ttl = c.cmd("PTTL", key)[1]
+        if ttl == -2:
+            return None          # expired (and lazily removed) while we were reading it
         return {"live": True, "val": zlib.crc32(repr((t, content)).encode()) + 1, "ttl": None if ttl < 0 else ttl}
 
     @staticmethod
@@ -425,6 +428,13 @@ class Sess:
         self.steps.append({"kind": "control", "args": [hx(b(x)) for x in args], "text": " ".join(str(x) for x in args), "impl": repr(r)})
         return r
 
+    def live_now(self, c, key):
+        """is the key logically present right now (read-only probe through the control connection)?"""
+        if self.ctl_db != self.db[c]:
+            self.ctl.cmd("SELECT", str(self.db[c]))
+            self.ctl_db = self.db[c]
+        return self.ctl.cmd("EXISTS", key) == ("i", 1)
+
     def sleep(self, ms):
         time.sleep(ms / 1000.0)
         self.steps.append({"kind": "sleep", "ms": ms})
@@ -469,14 +479,14 @@ class Sess:
 
     # ---- cells
     def begin(self, cell):
-        """neutral state: nobody in MULTI, nobody watching, everybody in db 0, empty dataset"""
+        """neutral state: nobody in MULTI, nobody watching, everybody in the base database, empty dataset"""
         for c in self.cl:
             if self.intx[c]:
                 self.do(c, ["DISCARD"])
             if self.watching[c]:
                 self.do(c, ["UNWATCH"])
-            if self.db[c] != 0:
-                self.do(c, ["SELECT", "0"])
+            if self.db[c] != self.base_db:
+                self.do(c, ["SELECT", str(self.base_db)])
         self.do(B, ["FLUSHALL"])
         self.cell = cell
         self.cell_start = len(self.steps)
@@ -577,7 +587,8 @@ def shard(key):
 
 def pick_keys(r):
     """watched key, an unrelated key in the same shard, one in another shard, the second argument key"""
-    wk = r.choice([b"wk", b"watched:1", b"w\xffk\r\n", b"k", b"user:1000:balance"])
+    # valid UTF-8 only: a script mangles other bytes in ARGV (a C12 finding), which would send the EVAL path to another key
+    wk = r.choice([b"wk", b"watched:1", b"w\xc3\xa9:k", b"k", b"user:1000:balance", b"w k"])
     cands = [b"o%d" % i for i in range(200)]
     r.shuffle(cands)
     same = next(x for x in cands if shard(x) == shard(wk) and x != wk)
@@ -694,16 +705,25 @@ def scenarios(s, wk, same_k, diff_k, rep):
     s.do(A, ["WATCH", wk])
     s.blocked_pop_served(B, C, wk, b"x")
     finish_tx(s, "b")
-    # --- expiry by deadline, sweeper paused (lazy path of was_modified_since)
-    begin("expiry-lazy")
-    s.do(B, ["SET", wk, "1"])
-    s.do(B, ["PEXPIRE", wk, "150"])
-    s.do(A, ["WATCH", wk])
-    s.sleep(320)
+    # --- expiry by deadline.  The key must still be alive when WATCH has been answered; on a loaded machine a
+    #     short deadline can pass earlier, then the attempt is abandoned (no EXEC, nothing judged) and repeated
+    #     with a longer one.
+    def watch_before_deadline(name):
+        for ttl in (150, 500, 2000):
+            begin(name)
+            s.do(B, ["SET", wk, "1"])
+            s.do(B, ["PEXPIRE", wk, str(ttl)])
+            s.do(A, ["WATCH", wk])
+            if s.live_now(A, wk):
+                return ttl
+        raise InternalError("machine too slow for the expiry scenarios: a 2 s deadline passed before WATCH was answered")
+    # sweeper paused: the lazy path of was_modified_since
+    ttl = watch_before_deadline("expiry-lazy")
+    s.sleep(ttl + 170)
     finish_tx(s, "e")
     begin("deadline-not-reached")
     s.do(B, ["SET", wk, "1"])
-    s.do(B, ["PEXPIRE", wk, "60000"])
+    s.do(B, ["PEXPIRE", wk, "600000"])
     s.do(A, ["WATCH", wk])
     s.sleep(30)
     finish_tx(s, "n")
@@ -713,13 +733,10 @@ def scenarios(s, wk, same_k, diff_k, rep):
     s.sleep(120)
     s.do(A, ["WATCH", wk])
     finish_tx(s, "f")
-    # --- expiry by deadline, sweeper running
-    begin("expiry-sweeper")
-    s.do(B, ["SET", wk, "1"])
-    s.do(B, ["PEXPIRE", wk, "150"])
-    s.do(A, ["WATCH", wk])
-    s.sleep(200)
-    s.wait_sweep(0, wk)
+    # sweeper running: the deletion marks the key
+    ttl = watch_before_deadline("expiry-sweeper")
+    s.sleep(ttl + 50)
+    s.wait_sweep(s.db[A], wk)
     finish_tx(s, "s")
 
 
@@ -866,6 +883,85 @@ def reproduce_alone(rows, quirks, o, steps):
         s.close()
 
 
+def run_round(rep, rows, quirks, r, base_db, tier, n_round):
+    """one server, one model: matrix, other-key side, scenarios; then the SELECT scenarios on fresh servers.
+    Returns (oracle failures, model disagreements)."""
+    wk, same_k, diff_k, other_k = pick_keys(r)
+    s = Sess(rows, "c08", quirks, base_db)
+    try:
+        # the model's shard function against the independent FNV-1a of common.py
+        for k in (wk, same_k, diff_k, PROBE):
+            info = s.ask("info 0 %s" % hx(k))
+            if not info.startswith("shard=%d " % shard(k)):
+                raise InternalError("shard function of the model differs from FNV-1a mod 16 on %r: %s" % (k, info))
+        # ---- matrix on the watched key
+        cells = []
+        for label, args, ostate, only in COMMANDS:
+            for state in STATES:
+                if only and state not in only:
+                    continue
+                for path in PATHS:
+                    cells.append((label, args, ostate, state, path))
+        r.shuffle(cells)
+        if tier == "quick":
+            budget = int(os.environ.get("VERIF_C08_CELLS", "0")) or len(cells)
+            cells = cells[:budget]
+        for label, args, ostate, state, path in cells:
+            st = matrix_cell(s, label, args, ostate, state, path, wk, other_k)
+            rep.nontrivial((label, state, path, st["impl"].split()[0], st["model"]))
+            rep.count("matrix.%s.%s" % (path, st["impl"].split()[0]))
+            rep.count("verdict." + st["model"].replace(" ", "/"))
+            if len(rep.samples) < 6 and st["impl"] == "nil" and label not in [x["cell"]["cmd"] for x in rep.samples if "cell" in x]:
+                rep.sample({"cell": s.cell, "steps": ["%d: %s -> %s | %s" % (x.get("c", -1), x.get("text", x["kind"]), x.get("impl"), x.get("model")) for x in s.cell_steps()]})
+        # ---- the same commands on OTHER keys: watched key present and absent, other key in the same shard / another shard
+        n_other = 0
+        for label, args, ostate, only in COMMANDS:
+            if label in ("FLUSHDB", "FLUSHALL", "SCAN", "KEYS"):
+                continue
+            for target, where in ((same_k, "same-shard"), (diff_k, "other-shard")):
+                for wstate in ("string", "absent"):
+                    path = PATHS[(n_other + n_round) % 4]
+                    n_other += 1
+                    s.begin({"kind": "other-key", "cmd": label, "where": where, "watched": wstate, "path": path, "key": hx(wk)})
+                    for stp in STATES[wstate]:
+                        s.do(B, subst(stp, wk, other_k))
+                    hs = home_state(label)
+                    for stp in STATES[hs]:
+                        s.do(B, subst(stp, target, other_k))
+                    if ostate == "present":
+                        s.do(B, ["SET", other_k, "other"])
+                    s.do(A, ["WATCH", wk])
+                    run_path(s, path, subst(args, target, other_k))
+                    st = finish_tx(s, "o")
+                    rep.nontrivial((label, where, wstate, path, st["impl"].split()[0], st["model"]))
+                    rep.count("other-key.%s.%s" % (where, st["impl"].split()[0]))
+        # flushes that cannot touch the watched key
+        for label, pre in (("FLUSHDB-absent-key", []), ("FLUSHDB-other-db", [["SELECT", str((base_db + 5) % 16)]])):
+            s.begin({"kind": "other-key", "cmd": label, "where": "flush", "watched": "absent" if not pre else "string", "path": "other", "key": hx(wk)})
+            if pre:
+                s.do(B, ["SET", wk, "1"])
+            s.do(B, ["SET", same_k, "1"])
+            for p in pre:
+                s.do(B, p)
+            s.do(A, ["WATCH", wk])
+            s.do(B, ["FLUSHDB"])
+            st = finish_tx(s, "f")
+            rep.count("other-key.flush.%s" % st["impl"].split()[0])
+        # ---- scenarios
+        scenarios(s, wk, same_k, diff_k, rep)
+        for e in [x for x in s.steps if x["kind"] == "exec" and x["c"] == A][-20:]:
+            rep.nontrivial(("scenario-exec", e["impl"].split()[0], e["model"]))
+        oracle = [dict(o, session_steps=s.steps) for o in s.oracle]
+        disagree = [dict(o) for o in s.disagree]
+        rep.evaluations += s.evals
+        rep.traces_validated += len(cells) + n_other
+    finally:
+        s.close()
+    so, sd, ev = select_scenarios(rows, quirks, wk, same_k, rep, r)
+    rep.evaluations += ev
+    return oracle + so, disagree + sd
+
+
 def main(tier, seed):
     rep = Report(PID, tier, seed)
     rep.rule = ("every client command is mirrored as an event to the Lean machine Ferrous.Watch.step; the effect of each write on its keys is observed "
@@ -901,111 +997,43 @@ def main(tier, seed):
     quirks = (int(quirks[0]), int(quirks[1]))
     rep.extra["watch_list_quirks"] = {"perDb": bool(quirks[0]), "rewatchKeeps": bool(quirks[1])}
     r = Rng(seed)
-    wk, same_k, diff_k, other_k = pick_keys(r)
-    s = Sess(rows, "c08", quirks)
     oracle, disagree = [], []
-    try:
-        # the model's shard function against the independent FNV-1a of common.py
-        for k in (wk, same_k, diff_k, PROBE):
-            info = s.ask("info 0 %s" % hx(k))
-            if not info.startswith("shard=%d " % shard(k)):
-                raise InternalError("shard function of the model differs from FNV-1a mod 16 on %r: %s" % (k, info))
-        # ---- matrix on the watched key
-        cells = []
-        for label, args, ostate, only in COMMANDS:
-            for state in STATES:
-                if only and state not in only:
-                    continue
-                for path in PATHS:
-                    cells.append((label, args, ostate, state, path))
-        r.shuffle(cells)
-        if tier == "quick":
-            budget = int(os.environ.get("VERIF_C08_CELLS", "0")) or len(cells)
-            cells = cells[:budget]
-        for label, args, ostate, state, path in cells:
-            st = matrix_cell(s, label, args, ostate, state, path, wk, other_k)
-            rep.nontrivial((label, state, path, st["impl"].split()[0], st["model"]))
-            rep.count("matrix.%s.%s" % (path, st["impl"].split()[0]))
-            rep.count("verdict." + st["model"].replace(" ", "/"))
-            if len(rep.samples) < 6 and st["impl"] == "nil":
-                rep.sample({"cell": s.cell, "steps": ["%d: %s -> %s | %s" % (x.get("c", -1), x.get("text", x["kind"]), x.get("impl"), x.get("model")) for x in s.cell_steps()]})
-        # ---- the same commands on OTHER keys: watched key present and absent, other key in the same shard / another shard
-        n_other = 0
-        for label, args, ostate, only in COMMANDS:
-            if label in ("FLUSHDB", "FLUSHALL", "SCAN", "KEYS"):
-                continue
-            for target, where in ((same_k, "same-shard"), (diff_k, "other-shard")):
-                for wstate in ("string", "absent"):
-                    path = PATHS[n_other % 4]
-                    n_other += 1
-                    s.begin({"kind": "other-key", "cmd": label, "where": where, "watched": wstate, "path": path, "key": hx(wk)})
-                    for stp in STATES[wstate]:
-                        s.do(B, subst(stp, wk, other_k))
-                    hs = home_state(label)
-                    for stp in STATES[hs]:
-                        s.do(B, subst(stp, target, other_k))
-                    if ostate == "present":
-                        s.do(B, ["SET", other_k, "other"])
-                    s.do(A, ["WATCH", wk])
-                    run_path(s, path, subst(args, target, other_k))
-                    st = finish_tx(s, "o")
-                    rep.nontrivial((label, where, wstate, path, st["impl"].split()[0], st["model"]))
-                    rep.count("other-key.%s.%s" % (where, st["impl"].split()[0]))
-        # flushes that cannot touch the watched key
-        for label, pre in (("FLUSHDB-absent-key", []), ("FLUSHDB-other-db", [["SELECT", "5"]])):
-            s.begin({"kind": "other-key", "cmd": label, "where": "flush", "watched": "absent" if not pre else "string", "path": "other", "key": hx(wk)})
-            if pre:
-                s.do(B, ["SET", wk, "1"])
-            s.do(B, ["SET", same_k, "1"])
-            for p in pre:
-                s.do(B, p)
-            s.do(A, ["WATCH", wk])
-            s.do(B, ["FLUSHDB"])
-            st = finish_tx(s, "f")
-            rep.count("other-key.flush.%s" % st["impl"].split()[0])
-        # ---- scenarios
-        scenarios(s, wk, same_k, diff_k, rep)
-        oracle = [dict(o) for o in s.oracle]
-        disagree = [dict(o) for o in s.disagree]
-        rep.evaluations += s.evals
-        rep.traces_validated += len(cells) + n_other
-        so, sd, ev = select_scenarios(rows, quirks, wk, same_k, rep, r)
-        oracle += so
-        disagree += sd
-        rep.evaluations += ev
-        # ---- verdict
-        known, new = {}, []
-        for o in oracle:
-            f = match_finding(o, fs)
-            if f:
-                known.setdefault(f["id"], (f, []))[1].append(o)
-            else:
-                new.append(o)
-        for fid, (f, os_) in known.items():
-            rep.known(fid, f["what"][:220])
-            rep.count("known." + fid, len(os_))
-        rep.extra["oracle_failures"] = len(oracle)
-        rep.extra["model_disagreements"] = len(disagree)
-        rep.extra["findings_not_reproduced"] = sorted(f["id"] for f in fs if f["id"] not in known)
-        if new:
-            # smallest first; a cell that fails the same way alone on a fresh server is its own minimal replay
-            new.sort(key=lambda o: len(o["steps"]))
-            o = new[0]
-            alone = o.get("fresh_server") or reproduce_alone(rows, quirks, o, o["steps"])
-            obj = replay_obj(o, o["steps"] if alone else s.steps[:o["upto"]])
-            obj["reproduces_on_fresh_server"] = bool(alone)
-            obj["more"] = [{"cell": x.get("cell"), "kind": x["kind"], "impl": x.get("impl"), "spec": x.get("spec")} for x in new[1:12]]
-            obj["lean_errors"] = errs[:5]
-            rep.violation("WATCH: %s (%s)" % (o["why"], json.dumps(o.get("cell"))[:160]), obj)
-        elif not ok:
-            rep.violation("proof obligations of C08 no longer check against the regenerated table Gen.storageFns / the model",
-                          {"theorem_errors": errs[:10], "log_tail": log[-3000:]}, no_input=True)
-        elif disagree:
-            rep.violation("correspondence Ferrous.Watch.step (with Gen.storageFns) vs server broke (%d disagreements) although the oracle holds" % len(disagree),
-                          {"correspondence": "drv_watch vs ferrous over TCP", "disagreements": [{k: v for k, v in d.items() if k != "steps"} for d in disagree[:8]],
-                           "steps_of_first": disagree[0]["steps"]}, no_input=True)
-    finally:
-        s.close()
+    rounds = [0] if tier == "quick" else [0, 3, 15, 9]
+    for n_round, base_db in enumerate(rounds):
+        o_, d_ = run_round(rep, rows, quirks, r.fork("round%d" % n_round), base_db, tier, n_round)
+        oracle += o_
+        disagree += d_
+    # ---- verdict
+    known, new = {}, []
+    for o in oracle:
+        f = match_finding(o, fs)
+        if f:
+            known.setdefault(f["id"], (f, []))[1].append(o)
+        else:
+            new.append(o)
+    for fid, (f, os_) in known.items():
+        rep.known(fid, f["what"][:220])
+        rep.count("known." + fid, len(os_))
+    rep.extra["oracle_failures"] = len(oracle)
+    rep.extra["model_disagreements"] = len(disagree)
+    rep.extra["findings_not_reproduced"] = sorted(f["id"] for f in fs if f["id"] not in known)
+    if new:
+        # smallest first; a cell that fails the same way alone on a fresh server is its own minimal replay
+        new.sort(key=lambda o: len(o["steps"]))
+        o = new[0]
+        alone = o.get("fresh_server") or reproduce_alone(rows, quirks, o, o["steps"])
+        obj = replay_obj(o, o["steps"] if alone else o["session_steps"][:o["upto"]])
+        obj["reproduces_on_fresh_server"] = bool(alone)
+        obj["more"] = [{"cell": x.get("cell"), "kind": x["kind"], "impl": x.get("impl"), "spec": x.get("spec")} for x in new[1:12]]
+        obj["lean_errors"] = errs[:5]
+        rep.violation("WATCH: %s (%s)" % (o["why"], json.dumps(o.get("cell"))[:160]), obj)
+    elif not ok:
+        rep.violation("proof obligations of C08 no longer check against the regenerated table Gen.storageFns / the model",
+                      {"theorem_errors": errs[:10], "log_tail": log[-3000:]}, no_input=True)
+    elif disagree:
+        rep.violation("correspondence Ferrous.Watch.step (with Gen.storageFns) vs server broke (%d disagreements) although the oracle holds" % len(disagree),
+                      {"correspondence": "drv_watch vs ferrous over TCP", "disagreements": [{k: v for k, v in d.items() if k != "steps"} for d in disagree[:8]],
+                       "steps_of_first": disagree[0]["steps"]}, no_input=True)
     return rep.finish()
 
 
